@@ -87,15 +87,17 @@ CLAIMED = {
         technique="Lean 4 proof (bit-field OR = concatenation; decode-encode identity) + compiled-code correspondence",
         ref="DESIGN.md section 8, C06"),
     "C07": dict(
-        text="Partial. Lean theorems, at token level against a reference recursive-descent parser for the FCP grammar: parsing inverts printing for the "
-             "two recursive productions, `type` (any nesting of [T,n], [T], Optional[T]) and `value` (arrays nested to any depth), for every printing "
-             "(relation-style: all spellings, all line numbers); one default binding per struct. The flat productions and the character level "
-             "(whitespace, comments, optional separators) are covered by the tie only: the real Lark front end, the Lean reference front end (lexer + "
-             "parser + transformer actions) and the printed description are compared on generated texts over every production under canonical, dense "
-             "and random formatting.",
-        note="Domain restricted to where the grammar is unambiguous: word-like tokens separated, parameters written with parentheses; Lark's Earley "
-             "engine is not modelled.",
-        technique="Lean 4 proof (parse-print inverse for the recursive productions) + three-way differential check",
+        text="Lean theorem, at token level against a reference recursive-descent parser for the whole FCP grammar: C07_parse_print - every "
+             "printing of a file (relation FileToks over every production: structs with fields/ids/types/parameters, enums, bindings with "
+             "aliases, extension fields and signal blocks, services with methods, devices, module imports; every choice of the optional "
+             "separators; arbitrary line numbers; types and values nested to any depth) parses back to exactly that file, and fuel is never the "
+             "reason for an error; one default binding per struct. The character level (lexer: whitespace, comments) and the agreement of the real "
+             "Lark/Earley front end with the reference parser are covered by the tie: the real front end, the Lean reference front end (lexer + "
+             "parser + transformer actions) and the printed description are compared on generated texts over every production under canonical, "
+             "dense and random formatting, strings with escapes included.",
+        note="Partial in one respect: text -> tokens (lexing, formatting invariance) is not proved, only its line bookkeeping (lex_lines); "
+             "Lark's Earley engine is not modelled. Domain: word-like tokens separated, parameters written with parentheses.",
+        technique="Lean 4 proof (parse-print inverse for the whole grammar at token level) + three-way differential check",
         ref="DESIGN.md section 8, C07"),
     "C08": dict(
         text="Lean theorems about the reference front end (parser + transformer actions folded in source order + module loading over an abstract file "
